@@ -337,7 +337,7 @@ def run_alias_chain(ct, ops, adds_list):
 
 def part_aliasing(ctx, ct, jobs):
     rng = ctx.rng
-    n = ctx.pick(250, 3000)
+    n = ctx.pick(160, 3000)
     cases, meta = [], []
     fixed = [[("ctor", []), ("ctor", [3])], [("ctor", [3]), ("ctor", [])], [("ctor", []), ("ctor", [])],
              [("ctor", []), ("ctor", [(2, 5)]), ("ctor", [7])], [("ctor", []), ("any",)], [("any",), ("ctor", [])],
@@ -501,6 +501,8 @@ def part_tables(ctx, ct, asr, VNA, jobs):
         tmeta.append((Te, vals, k))
         ctx.count(1, key=("tbl", repr(Te), repr(vals), k) if (0 < len(idx) < len(T)) else None,
                   bucket="table:" + ("catch-all" if catch_all else "plain") + (":allowed" if allowed else ":not-allowed"))
+        if why:
+            continue     # the table was damaged (reported above, visible to Coq in this case): the remaining oracles need an intact table
         inp = {"kind": "table", "table": [list(c.items()) for c in Te], "values": list(vals.items()), "key": k}
         # ---- oracle 1: filter = the columns whose sets hold all the values (or the empty column)
         exp_idx = [j for j, cd in enumerate(Tden) if spec_matches(cd, vals) or len(cd) == 0]
@@ -770,8 +772,6 @@ def csv_alias_run(ct, obs, ci, kk, adds, pre):
         why = "two cells of the table read are the same ValueSet object"
     snap = vs_state(ct, obs[ci][kk])
     apply_adds(obs[ci][kk], adds)
-    post = clist(obs, lambda e: clist(list(e.items()), lambda kv: "(%s, %s)" % (
-        cz(kv[0]), c_vset(snap if kv[1] is obs[ci][kk] and False else vs_state(ct, kv[1])))))
     # the modified cell itself is put back as read (by position), all others are observed after the modification
     post = clist(list(enumerate(obs)), lambda ie: clist(list(ie[1].items()), lambda kv: "(%s, %s)" % (
         cz(kv[0]), c_vset(snap if (ie[0] == ci and kv[0] == kk) else vs_state(ct, kv[1])))))
